@@ -33,11 +33,12 @@ func main() {
 	defer w.close()
 
 	var cases []c.Case
-	for _, sc := range corpus() {
-		cases = append(cases, w.run(sc))
+	for _, g := range corpus() {
+		cases = append(cases, w.run(g)...)
 	}
-	for i := 0; i < a.N; i++ {
-		cases = append(cases, w.run(gen(r)))
+	nCorpus := len(cases)
+	for len(cases)-nCorpus < a.N { // N counts logins; a group contributes one case per login
+		cases = append(cases, w.run(gen(r))...)
 	}
 	if w.selfCheckFailures > 0 {
 		fmt.Fprintf(os.Stderr, "harness self-check: %d un-mangled renderings were classified differently from their intended class\n", w.selfCheckFailures)
